@@ -935,16 +935,24 @@ func (s *State) evalForInteger(fe *ast.ForExpression, start *int64, end int64, n
 	var newBody ast.Node
 	var register object.Register
 	newBody = fe.Body
-	if name != "" && !s.NoReg {
+	useReg := name != "" && !s.NoReg && s.env.HasRegisters()
+	if useReg {
 		var ok bool
 		register, newBody, ok = setupRegister(s.env, name, int64(startValue), fe.Body)
-		if !ok {
-			return s.Errorf("for loop register %s shouldn't be modified inside the loop", name)
+		if ok {
+			ptr = register.Ptr()
+			// Release on every way out of the loop: normal end, break, return, error, panic.
+			defer s.env.ReleaseRegister(register)
+		} else {
+			// The body can't use a register (function literal or x++ on the variable): use a plain variable,
+			// like with registers disabled.
+			s.env.ReleaseRegister(register)
+			newBody = fe.Body
+			useReg = false
 		}
-		ptr = register.Ptr()
 	}
 	for i := startValue; i < endValue; i++ {
-		if s.NoReg && name != "" {
+		if name != "" && !useReg {
 			s.env.Set(name, object.Integer{Value: int64(i)})
 		}
 		if ptr != nil {
@@ -969,9 +977,6 @@ func (s *State) evalForInteger(fe *ast.ForExpression, start *int64, end int64, n
 		default:
 			lastEval = nextEval
 		}
-	}
-	if ptr != nil {
-		s.env.ReleaseRegister(register)
 	}
 	return lastEval
 }
